@@ -20,7 +20,7 @@ func VerifHarness_C06_pipe() {
 	nw := verifSplitInt("writes", 1, verifBound(2, 3))
 	var all []byte
 	for i := 0; i < nw; i++ {
-		p := verifNondetBytes("pt", verifSplitInt("ptlen", 0, verifBound(2, 4)))
+		p := verifNondetBytes("pt", verifSplitInt("ptlen", 0, verifBound(2, 3)))
 		n, err := w.Write(p)
 		verifAssert("C06.pipe.writeFullLength", n == len(p) && err == nil)
 		all = append(all, p...)
@@ -32,13 +32,13 @@ func VerifHarness_C06_pipe() {
 		n, err := w.Write([]byte{1})
 		verifAssert("C12.pipe.writeAfterCloseFails", n == 0 && err != nil)
 	}
-	rt := &verifConn{in: wt.out, seg: verifSplitInt("segmented", 0, 1) == 1, segBudget: verifBound(4, 6)}
+	rt := &verifConn{in: wt.out, seg: verifSplitInt("segmented", 0, 1) == 1, segBudget: verifBound(4, 4)}
 	r := newEstablished(rt, kind, iv, false)
 	got := 0
 	sawEOF := false
-	reads := verifBound(4, 6)
+	reads := verifBound(4, 5)
 	for i := 0; i < reads; i++ {
-		buf := make([]byte, verifSplitInt("bufsz", 1, verifBound(2, 3)))
+		buf := make([]byte, verifSplitInt("bufsz", 1, verifBound(2, 2)))
 		if i >= 2 {
 			buf = make([]byte, 3) // later reads: one buffer size
 		}
